@@ -4,6 +4,7 @@ import (
 	"encoding/json"
 	"fmt"
 	"os"
+	"os/exec"
 	"path/filepath"
 	"runtime"
 	"sort"
@@ -21,6 +22,7 @@ type PropConfig struct {
 	Structural  []string `json:"structural"`   // structural checks
 	Assumptions []string `json:"assumptions"`  // standing assumptions for the evidence
 	NotDecided  []string `json:"not_decided"`
+	Witness     string   `json:"witness"` // witness finder run only after an obligation failed, e.g. "parseprobe C08 4"
 }
 
 type knownFinding struct {
@@ -209,6 +211,11 @@ func cmdCheck(args []string) {
 		p := writeReplay(id, "vacuity", map[string]interface{}{"obligation": "obligation-count", "reason": fmt.Sprintf("only %d obligations generated, expected about %d: contracts no longer bind to the code", len(obls), cfg.MinObls)})
 		lines = append(lines, fmt.Sprintf("VIOLATION property=%s replay=%s no-failing-input-found", id, p))
 	}
+	// witness finder: only after an obligation has failed, look for a real failing input
+	witnessInput, witnessMsg, witnessCmd := "", "", ""
+	if cfg.Witness != "" && len(failed) > 0 {
+		witnessInput, witnessMsg, witnessCmd = runWitness(id, cfg.Witness)
+	}
 	for _, o := range failed {
 		isKnown := false
 		for _, kf := range kfs {
@@ -228,8 +235,31 @@ func cmdCheck(args []string) {
 			"meaning": "this verification condition was generated from the current /repo source and could not be discharged; on the unchanged tree it is discharged",
 			"rerun":   fmt.Sprintf("/verif/bin/spokvc verify -v -only '%s' '%s'", o.Name, o.Func),
 		}
+		suffix := " no-failing-input-found"
+		if witnessInput != "" {
+			rep["failing_input"] = witnessInput
+			rep["oracle_verdict_on_real_code"] = witnessMsg
+			rep["replay_cmd"] = witnessCmd
+			suffix = ""
+		} else if cfg.Witness != "" {
+			rep["witness_search"] = "bounded witness search (" + cfg.Witness + ") found no input on which the property-level oracle fails against the real code"
+		}
 		p := writeReplay(id, o.Name, rep)
-		lines = append(lines, fmt.Sprintf("VIOLATION property=%s replay=%s no-failing-input-found", id, p))
+		lines = append(lines, fmt.Sprintf("VIOLATION property=%s replay=%s%s", id, p, suffix))
+	}
+	// structural side conditions
+	nStruct, nStructOK := 0, 0
+	for _, sc := range cfg.Structural {
+		for _, r := range w.runStructural(sc) {
+			nStruct++
+			if r.OK {
+				nStructOK++
+				continue
+			}
+			violations++
+			p := writeReplay(id, "structural-"+r.Name, map[string]interface{}{"property": id, "obligation": "structural/" + r.Name, "reason": r.Detail, "meaning": "a structural side condition checked on the SSA of the working tree does not hold"})
+			lines = append(lines, fmt.Sprintf("VIOLATION property=%s replay=%s no-failing-input-found", id, p))
+		}
 	}
 	// evidence
 	var samples []interface{}
@@ -279,6 +309,8 @@ func cmdCheck(args []string) {
 		"solve_wall_s":             solveS,
 		"samples":                  samples,
 		"solver_timeout_s":         timeout,
+		"structural_checks":        nStruct,
+		"structural_ok":            nStructOK,
 		"all_solvers_must_agree":   all,
 	}
 	if level == "other" {
@@ -328,4 +360,31 @@ func writeFailureEvidence(id, tier string, seed int, reason string, wall float64
 	os.MkdirAll(filepath.Join(verifDir, "evidence"), 0o755)
 	out, _ := json.MarshalIndent(ev, "", " ")
 	os.WriteFile(filepath.Join(verifDir, "evidence", id+".json"), out, 0o644)
+}
+
+// runWitness runs the bounded witness finder (a property-level oracle against the real code).
+func runWitness(id, spec string) (input, msg, cmd string) {
+	fs := strings.Fields(spec)
+	if len(fs) < 3 || fs[0] != "parseprobe" {
+		return "", "", ""
+	}
+	bin := filepath.Join(verifDir, "bin", "parseprobe")
+	out, _ := exec.Command(bin, "search", fs[1], fs[2], "1").CombinedOutput()
+	for _, l := range strings.Split(string(out), "\n") {
+		if strings.HasPrefix(l, "FAILING-INPUT ") {
+			rest := strings.TrimPrefix(l, "FAILING-INPUT ")
+			// format: "<quoted input>": message
+			q, err := strconv.QuotedPrefix(rest)
+			if err != nil {
+				continue
+			}
+			in, _ := strconv.Unquote(q)
+			dir := filepath.Join(verifDir, "replays", id)
+			os.MkdirAll(dir, 0o755)
+			f := filepath.Join(dir, "failing-input.txt")
+			os.WriteFile(f, []byte(in), 0o644)
+			return in, strings.TrimPrefix(rest[len(q):], ": "), bin + " oracle " + fs[1] + " " + f
+		}
+	}
+	return "", "", ""
 }
